@@ -1,2 +1,310 @@
-import Cctz.Model.Civil
-import Cctz.Spec.Gregorian
+/-
+  Civil-time arithmetic: `step`, `civilAdd`, `civilSub`, `difference`, `lt` against the
+  specification (`Spec.unitNum`, `Spec.secNum`).
+-/
+import Cctz.Proofs.CivilNorm
+
+namespace Cctz
+open Cctz.Spec
+
+/-! ## `unitNum` on aligned values -/
+
+theorem unitNum_align (t : Tag) (f : Fields) : unitNum t (Civil.align t f) = unitNum t f := by
+  cases t <;> simp [Civil.align, unitNum, secNum]
+
+theorem align_of_aligned (t : Tag) (f : Fields) (h : Aligned t f) : Civil.align t f = f := by
+  cases f
+  cases t <;> simp_all [Civil.align, Aligned]
+
+/-- for aligned valid values the order of the units is the lexicographic order of the fields -/
+theorem unitNum_lt_iff_lex (t : Tag) {a b : Fields} (va : Valid a) (vb : Valid b)
+    (ha : Aligned t a) (hb : Aligned t b) : unitNum t a < unitNum t b ↔ FieldsLex a b := by
+  have hs := secNum_lt_iff_lex va vb
+  obtain ⟨a1, a2, a3, a4, a5, a6, a7, a8, a9, a10⟩ := va
+  obtain ⟨b1, b2, b3, b4, b5, b6, b7, b8, b9, b10⟩ := vb
+  cases t
+  · exact hs
+  · rw [← hs]; simp only [Aligned] at ha hb; simp only [unitNum, secNum, ha, hb]; omega
+  · rw [← hs]; simp only [Aligned] at ha hb
+    simp only [unitNum, secNum, ha.1, ha.2, hb.1, hb.2]; omega
+  · rw [← hs]; simp only [Aligned] at ha hb
+    simp only [unitNum, secNum, ha.1, ha.2.1, ha.2.2, hb.1, hb.2.1, hb.2.2]; omega
+  · simp only [Aligned] at ha hb
+    simp only [unitNum, FieldsLex, DateLex]; omega
+  · simp only [Aligned] at ha hb
+    simp only [unitNum, FieldsLex, DateLex]; omega
+
+theorem unitNum_inj (t : Tag) {a b : Fields} (va : Valid a) (vb : Valid b)
+    (ha : Aligned t a) (hb : Aligned t b) (h : unitNum t a = unitNum t b) : a = b := by
+  rcases FieldsLex.trichotomy a b with h' | h' | h'
+  · have := (unitNum_lt_iff_lex t va vb ha hb).mpr h'; omega
+  · exact h'
+  · have := (unitNum_lt_iff_lex t vb va hb ha).mpr h'; omega
+
+/-- the year is monotone in the unit count -/
+theorem year_le_of_unitNum_le (t : Tag) {a b : Fields} (va : Valid a) (vb : Valid b)
+    (ha : Aligned t a) (hb : Aligned t b) (h : unitNum t a ≤ unitNum t b) : a.y ≤ b.y := by
+  by_cases hlt : b.y < a.y
+  · have : FieldsLex b a := Or.inl (Or.inl hlt)
+    have := (unitNum_lt_iff_lex t vb va hb ha).mpr this
+    omega
+  · omega
+
+/-! ## `step` -/
+
+theorem step_second (a : Fields) (n : Int) (va : Valid a) :
+    Valid (Civil.step .second a n).val ∧
+      secNum (Civil.step .second a n).val = secNum a + n := by
+  obtain ⟨a1, a2, a3, a4, a5, a6, a7, a8, a9, a10⟩ := va
+  simp only [Civil.step, Ck.bindv, chk64_val]
+  have h := nSec_norm a.y a.m a.d a.hh (a.mm + cdiv n 60) (a.ss + cmod n 60)
+  have hn := cdiv_cmod n 60
+  refine ⟨h.valid (by omega) (by omega) (by omega), ?_⟩
+  rw [h.secNum, monthDay_of_range _ _ _ a1 a2]
+  simp only [secNum]
+  omega
+
+theorem step_minute (a : Fields) (n : Int) (va : Valid a) :
+    Valid (Civil.step .minute a n).val ∧ (Civil.step .minute a n).val.ss = a.ss ∧
+      unitNum .minute (Civil.step .minute a n).val = unitNum .minute a + n := by
+  obtain ⟨a1, a2, a3, a4, a5, a6, a7, a8, a9, a10⟩ := va
+  simp only [Civil.step, Ck.bindv, chk64_val]
+  have h := nMin_norm a.y a.m a.d (a.hh + cdiv n 60) 0 (a.mm + cmod n 60) a.ss
+  have hn := cdiv_cmod n 60
+  refine ⟨h.valid (by omega) (by omega) (by omega), h.ss, ?_⟩
+  simp only [unitNum, h.day, h.hh, h.mm, monthDay_of_range _ _ _ a1 a2]
+  omega
+
+theorem step_hour (a : Fields) (n : Int) (va : Valid a) :
+    Valid (Civil.step .hour a n).val ∧ (Civil.step .hour a n).val.ss = a.ss ∧
+      (Civil.step .hour a n).val.mm = a.mm ∧
+      unitNum .hour (Civil.step .hour a n).val = unitNum .hour a + n := by
+  obtain ⟨a1, a2, a3, a4, a5, a6, a7, a8, a9, a10⟩ := va
+  simp only [Civil.step, Ck.bindv, chk64_val]
+  have h := nHour_norm a.y a.m (a.d + cdiv n 24) 0 (a.hh + cmod n 24) a.mm a.ss
+  have hn := cdiv_cmod n 24
+  refine ⟨h.valid (by omega) (by omega) (by omega), h.ss, h.mm, ?_⟩
+  simp only [unitNum, h.day, h.hh, monthDay_of_range _ _ _ a1 a2]
+  have := dayNum_linear a.y a.m a.d (cdiv n 24)
+  omega
+
+theorem step_day (a : Fields) (n : Int) (va : Valid a) :
+    Valid (Civil.step .day a n).val ∧ (Civil.step .day a n).val.ss = a.ss ∧
+      (Civil.step .day a n).val.mm = a.mm ∧ (Civil.step .day a n).val.hh = a.hh ∧
+      unitNum .day (Civil.step .day a n).val = unitNum .day a + n := by
+  obtain ⟨a1, a2, a3, a4, a5, a6, a7, a8, a9, a10⟩ := va
+  simp only [Civil.step]
+  have h := nDay_norm a.y a.m a.d n a.hh a.mm a.ss a1 a2
+  exact ⟨h.valid (by omega) (by omega) (by omega), h.ss, h.mm, h.hh, h.day⟩
+
+/-- the month step on a value whose day is `1`: the result is the first of the carried month -/
+theorem step_month (a : Fields) (n : Int) (va : Valid a) (hd : a.d = 1) :
+    (Civil.step .month a n).val =
+      ⟨a.y + cdiv n 12 + (a.m + cmod n 12 - 1) / 12, (a.m + cmod n 12 - 1) % 12 + 1, 1,
+        a.hh, a.mm, a.ss⟩ := by
+  obtain ⟨a1, a2, a3, a4, a5, a6, a7, a8, a9, a10⟩ := va
+  simp only [Civil.step, Ck.bindv, chk64_val]
+  have h := nMon_norm (a.y + cdiv n 12) (a.m + cmod n 12) a.d 0 a.hh a.mm a.ss
+  generalize (Civil.nMon (a.y + cdiv n 12) (a.m + cmod n 12) a.d 0 a.hh a.mm a.ss).val = s at h ⊢
+  have hp := daysInMonth_pos (a.y + cdiv n 12 + (a.m + cmod n 12 - 1) / 12)
+    ((a.m + cmod n 12 - 1) % 12 + 1)
+  have hv : ValidDate (a.y + cdiv n 12 + (a.m + cmod n 12 - 1) / 12)
+      ((a.m + cmod n 12 - 1) % 12 + 1) 1 := ⟨by omega, by omega, by omega, by omega⟩
+  have hday := h.day
+  rw [hd, Int.add_zero] at hday
+  obtain ⟨e1, e2, e3⟩ := dayNum_inj h.date hv hday
+  cases s
+  simp only [Fields.mk.injEq]
+  exact ⟨e1, e2, e3, h.hh, h.mm, h.ss⟩
+
+
+/-- `step` moves a valid aligned civil time by exactly `n` units and keeps it valid and aligned -/
+theorem step_spec (t : Tag) (a : Fields) (n : Int) (va : Valid a) (ha : Aligned t a) :
+    Valid (Civil.step t a n).val ∧ Aligned t (Civil.step t a n).val ∧
+      unitNum t (Civil.step t a n).val = unitNum t a + n := by
+  cases t
+  · obtain ⟨h1, h2⟩ := step_second a n va
+    exact ⟨h1, trivial, h2⟩
+  · obtain ⟨h1, h2, h3⟩ := step_minute a n va
+    simp only [Aligned] at ha ⊢
+    exact ⟨h1, by rw [h2, ha], h3⟩
+  · obtain ⟨h1, h2, h3, h4⟩ := step_hour a n va
+    simp only [Aligned] at ha ⊢
+    exact ⟨h1, ⟨by rw [h2, ha.1], by rw [h3, ha.2]⟩, h4⟩
+  · obtain ⟨h1, h2, h3, h4, h5⟩ := step_day a n va
+    simp only [Aligned] at ha ⊢
+    exact ⟨h1, ⟨by rw [h2, ha.1], by rw [h3, ha.2.1], by rw [h4, ha.2.2]⟩, h5⟩
+  · simp only [Aligned] at ha
+    rw [step_month a n va ha.2.2.2]
+    obtain ⟨a1, a2, a3, a4, a5, a6, a7, a8, a9, a10⟩ := va
+    have hn := cdiv_cmod n 12
+    have hp := daysInMonth_pos (a.y + cdiv n 12 + (a.m + cmod n 12 - 1) / 12)
+      ((a.m + cmod n 12 - 1) % 12 + 1)
+    refine ⟨?_, ?_, ?_⟩
+    · simp only [Valid]; omega
+    · simp only [Aligned, and_true]; omega
+    · simp only [unitNum]; omega
+  · simp only [Aligned] at ha
+    obtain ⟨a1, a2, a3, a4, a5, a6, a7, a8, a9, a10⟩ := va
+    simp only [Civil.step, Ck.bindv, chk64_val, Ck.pure_val]
+    have hp := daysInMonth_pos (a.y + n) a.m
+    refine ⟨?_, ?_, ?_⟩
+    · simp only [Valid]; omega
+    · simp only [Aligned]; omega
+    · simp only [unitNum]
+
+theorem civilAdd_val (t : Tag) (a : Fields) (n : Int) (va : Valid a) (ha : Aligned t a) :
+    (Civil.civilAdd t a n).val = (Civil.step t a n).val := by
+  show Civil.align t (Civil.step t a n).val = _
+  exact align_of_aligned t _ (step_spec t a n va ha).2.1
+
+theorem civilAdd_spec (t : Tag) (a : Fields) (n : Int) (va : Valid a) (ha : Aligned t a) :
+    Valid (Civil.civilAdd t a n).val ∧ Aligned t (Civil.civilAdd t a n).val ∧
+      unitNum t (Civil.civilAdd t a n).val = unitNum t a + n := by
+  rw [civilAdd_val t a n va ha]; exact step_spec t a n va ha
+
+theorem civilSub_spec (t : Tag) (a : Fields) (n : Int) (va : Valid a) (ha : Aligned t a) :
+    Valid (Civil.civilSub t a n).val ∧ Aligned t (Civil.civilSub t a n).val ∧
+      unitNum t (Civil.civilSub t a n).val = unitNum t a - n := by
+  unfold Civil.civilSub
+  by_cases hn : n = i64min
+  · subst hn
+    simp only [bne_self_eq_false, Bool.false_eq_true, if_false, Ck.bindv, chk64_val, Ck.map_val]
+    obtain ⟨v1, al1, u1⟩ := step_spec t a (-(i64min + 1)) va ha
+    obtain ⟨v2, al2, u2⟩ := step_spec t _ 1 v1 al1
+    rw [align_of_aligned t _ al2]
+    exact ⟨v2, al2, by rw [u2, u1]; omega⟩
+  · have hne : (n != i64min) = true := by simpa using hn
+    simp only [hne, if_true, Ck.bindv, chk64_val, Ck.map_val]
+    obtain ⟨v1, al1, u1⟩ := step_spec t a (-n) va ha
+    rw [align_of_aligned t _ al1]
+    exact ⟨v1, al1, by rw [u1]; omega⟩
+
+/-! ## `difference` -/
+
+theorem scaleAdd_val (v f a : Int) : (Civil.scaleAdd v f a).val = v * f + a := by
+  unfold Civil.scaleAdd
+  split <;> simp only [Ck.bindv, chk64_val]
+  · rw [Int.add_mul]; omega
+  · rw [Int.sub_mul]; omega
+
+/-- days of a 400-year era before year-of-era `yoe`, in the two forms -/
+theorem era_days (e : Int) :
+    365 * e + leapsThrough e = 146097 * (e / 400) + ((e % 400) * 365 + (e % 400) / 4 - (e % 400) / 100) := by
+  simp only [leapsThrough]; omega
+
+theorem ite_val {c : Prop} [Decidable c] (x y : Ck α) : (if c then x else y).val = if c then x.val else y.val := by
+  split <;> rfl
+
+/-- the era computed by `ymd_ord` is the floor quotient -/
+theorem era_floor (e : Int) : cdiv (if e ≥ 0 then e else e - 399) 400 = e / 400 := by
+  rw [cdiv_pos_lit _ 400 (by decide)]; omega
+
+theorem doy_val (m : Int) (h1 : 1 ≤ m) (h2 : m ≤ 12) :
+    cdiv (153 * (m + (if m > 2 then -3 else 9)) + 2) 5 + 59 + (if m ≤ 2 then -365 else 0) = cumDays m := by
+  have hm : m = 1 ∨ m = 2 ∨ m = 3 ∨ m = 4 ∨ m = 5 ∨ m = 6 ∨ m = 7 ∨ m = 8 ∨ m = 9 ∨ m = 10 ∨
+      m = 11 ∨ m = 12 := by omega
+  rcases hm with h | h | h | h | h | h | h | h | h | h | h | h <;> subst h <;> decide
+
+theorem ymdOrd_val (y m d : Int) (h1 : 1 ≤ m) (h2 : m ≤ 12) :
+    (Civil.ymdOrd y m d).val = dayNum y m d := by
+  rw [dayNum_alt]
+  unfold Civil.ymdOrd
+  simp only [Ck.bindv, chk64_val, Ck.pure_val, ite_val]
+  have hdoy := doy_val m h1 h2
+  generalize cdiv (153 * (m + (if m > 2 then -3 else 9)) + 2) 5 = doy at hdoy ⊢
+  generalize hE : (if m ≤ 2 then y - 1 else y) = E
+  have hE' : E = y + b2i (decide (m > 2)) - 1 := by
+    simp only [b2i, decide_eq_true_eq]; omega
+  rw [← hE']
+  have he := era_floor E
+  have hd := era_days E
+  simp only [ge_iff_le] at he ⊢
+  rw [he]
+  have hyoe : E - E / 400 * 400 = E % 400 := by omega
+  rw [hyoe]
+  have h4 := cdiv_pos_lit (E % 400) 4 (by decide)
+  have h100 := cdiv_pos_lit (E % 400) 100 (by decide)
+  rw [h4, h100]
+  generalize cumDays m = cm at *
+  generalize leapsThrough E = L at *
+  omega
+
+/-- the sign fix-up of `day_difference` -/
+def ddAdjust (c4 delta : Int) : Ck (Int × Int) :=
+  if c4 > 0 ∧ delta < 0 then do
+    let dl ← chk64 (delta + 2 * 146097); let c ← chk64 (c4 - 2 * 400); pure (c, dl)
+  else if c4 < 0 ∧ delta > 0 then do
+    let dl ← chk64 (delta - 2 * 146097); let c ← chk64 (c4 + 2 * 400); pure (c, dl)
+  else pure (c4, delta)
+
+theorem dayDifference_eq (y1 m1 d1 y2 m2 d2 : Int) :
+    Civil.dayDifference y1 m1 d1 y2 m2 d2 = (do
+      let ya ← chk64 (y1 - cmod y1 400)
+      let yb ← chk64 (y2 - cmod y2 400)
+      let c4 ← chk64 (ya - yb)
+      let oa ← Civil.ymdOrd (cmod y1 400) m1 d1
+      let ob ← Civil.ymdOrd (cmod y2 400) m2 d2
+      let delta ← chk64 (oa - ob)
+      let p ← ddAdjust c4 delta
+      let q ← chk64 (cdiv p.1 400 * 146097)
+      chk64 (q + p.2)) := rfl
+
+theorem ddAdjust_val (c4 delta : Int) (k : Int) (hk : c4 = 400 * k) :
+    cdiv (ddAdjust c4 delta).val.1 400 * 146097 + (ddAdjust c4 delta).val.2 = 146097 * k + delta := by
+  unfold ddAdjust
+  split
+  · simp only [Ck.bindv, chk64_val, Ck.pure_val, cdiv_pos_lit _ 400 (by decide)]; omega
+  · split
+    · simp only [Ck.bindv, chk64_val, Ck.pure_val, cdiv_pos_lit _ 400 (by decide)]; omega
+    · simp only [Ck.pure_val, cdiv_pos_lit _ 400 (by decide)]; omega
+
+theorem dayDifference_val (y1 m1 d1 y2 m2 d2 : Int) (h1 : 1 ≤ m1) (h2 : m1 ≤ 12)
+    (h3 : 1 ≤ m2) (h4 : m2 ≤ 12) :
+    (Civil.dayDifference y1 m1 d1 y2 m2 d2).val = dayNum y1 m1 d1 - dayNum y2 m2 d2 := by
+  rw [dayDifference_eq]
+  simp only [Ck.bindv, chk64_val, ymdOrd_val _ _ _ h1 h2, ymdOrd_val _ _ _ h3 h4]
+  have e1 := cdiv_cmod y1 400
+  have e2 := cdiv_cmod y2 400
+  rw [ddAdjust_val _ _ (cdiv y1 400 - cdiv y2 400) (by omega)]
+  have f1 := dayNum_add_400_mul (cmod y1 400) (cdiv y1 400) m1 d1
+  have f2 := dayNum_add_400_mul (cmod y2 400) (cdiv y2 400) m2 d2
+  rw [show cmod y1 400 + 400 * cdiv y1 400 = y1 by omega] at f1
+  rw [show cmod y2 400 + 400 * cdiv y2 400 = y2 by omega] at f2
+  omega
+
+theorem difference_val (t : Tag) (a b : Fields) (va : Valid a) (vb : Valid b)
+    (ha : Aligned t a) (hb : Aligned t b) :
+    (Civil.difference t a b).val = unitNum t a - unitNum t b := by
+  have hd := dayDifference_val a.y a.m a.d b.y b.m b.d va.1 va.2.1 vb.1 vb.2.1
+  cases t <;> simp only [Aligned] at ha hb <;>
+    simp only [Civil.difference, Ck.bindv, chk64_val, scaleAdd_val, hd, unitNum, secNum] <;> omega
+
+
+/-! ## comparison -/
+
+theorem lt_iff_lex (a b : Fields) : Civil.lt a b = true ↔ FieldsLex a b := by
+  simp only [Civil.lt, FieldsLex, DateLex, Bool.or_eq_true, Bool.and_eq_true, decide_eq_true_eq,
+    beq_iff_eq]
+  omega
+
+theorem eq_iff (a b : Fields) : Civil.eq a b = true ↔ a = b := by
+  cases a; cases b
+  simp only [Civil.eq, Bool.and_eq_true, beq_iff_eq, Fields.mk.injEq, and_assoc]
+
+theorem lt_iff_secNum {a b : Fields} (va : Valid a) (vb : Valid b) :
+    Civil.lt a b = true ↔ secNum a < secNum b := by
+  rw [lt_iff_lex, secNum_lt_iff_lex va vb]
+
+theorem le_iff_secNum {a b : Fields} (va : Valid a) (vb : Valid b) :
+    Civil.le a b = true ↔ secNum a ≤ secNum b := by
+  have := lt_iff_secNum vb va
+  simp only [Civil.le, Bool.not_eq_true', ← Bool.not_eq_true]
+  rw [this]; omega
+
+theorem eq_iff_secNum {a b : Fields} (va : Valid a) (vb : Valid b) :
+    Civil.eq a b = true ↔ secNum a = secNum b := by
+  rw [eq_iff]
+  exact ⟨fun h => by rw [h], secNum_inj va vb⟩
+
+end Cctz
